@@ -163,3 +163,35 @@ func filesAllEmpty(after mon.Snapshot, created []string) bool {
 	}
 	return true
 }
+
+// strayOptions returns options that are meaningless for the operation kind ("mkdir", "verify",
+// "walk") and therefore must not change its result: output encodings, branch strings, the
+// non-iterator switch, strictness (mkdir), extensions (verify, walk), a nil option.
+func strayOptions(kind string, sel int) ([]gtree.Option, string) {
+	var o []gtree.Option
+	var names []string
+	add := func(n string, opt gtree.Option) { o = append(o, opt); names = append(names, n) }
+	switch sel % 6 {
+	case 1:
+		add("json", gtree.WithEncodeJSON())
+	case 2:
+		add("yaml", gtree.WithEncodeYAML())
+		add("noiter", gtree.WithNoUseIterOfSimpleOutput())
+	case 3:
+		add("toml", gtree.WithEncodeTOML())
+		add("nil", nil)
+	case 4:
+		add("nil", nil)
+		if kind != "walk" {
+			add("branch", gtree.WithBranchFormatLastNode("X", "Y"))
+		}
+	case 5:
+		if kind == "mkdir" {
+			add("strict", gtree.WithStrictVerify())
+		} else {
+			add("ext", gtree.WithFileExtensions([]string{".gz", "b"}))
+		}
+		add("json", gtree.WithEncodeJSON())
+	}
+	return o, strings.Join(names, "+")
+}
